@@ -16,13 +16,17 @@ def write_if_changed(path, text):
 
 
 def run(only=None):
-    from translate import py_int2coq, py_consts2coq, py_effects2coq, py_ledger2coq
+    from translate import py_int2coq, py_consts2coq, py_effects2coq, py_ledger2coq, py_disp2coq, py_shift2coq, py_float2coq
     jobs = {
         'GenUtils.v': lambda: py_int2coq.generate(os.path.join(REPO, 'utils.py'), ['next_fast_len', 'prev_fast_len']),
         'GenConsts.v': lambda: py_consts2coq.generate(REPO),
         'GenEffects.v': lambda: py_effects2coq.generate('/repo')[0],
         'GenLedger.v': lambda: py_ledger2coq.generate('/repo'),
         'GenBand.v': lambda: py_ledger2coq.generate_band('/repo'),
+        'GenDisp.v': lambda: py_disp2coq.generate('/repo'),
+        'GenShift.v': lambda: py_shift2coq.generate('/repo'),
+        'GenSnippet.v': lambda: py_shift2coq.generate_snippet('/repo'),
+        'GenPhase.v': lambda: py_float2coq.generate('/repo'),
     }
     res = {}
     os.makedirs(GEN, exist_ok=True)
